@@ -27,7 +27,7 @@ Proof.
   destruct a, b; unfold robs_eqb; simpl.
   rewrite !andb_true_iff, result_eqb_spec, optbool_eqb_spec, !natlist_eqb_spec, !bool_eqb_spec, !nat_eqb_spec.
   split.
-  - intros [[[[[[[[[-> ->] ->] ->] ->] ->] ->] ->] ->] ->]. reflexivity.
+  - intros [[[[[[[[[[-> ->] ->] ->] ->] ->] ->] ->] ->] ->] ->]. reflexivity.
   - intro H; injection H; intros; subst; repeat split; reflexivity.
 Qed.
 
@@ -118,13 +118,23 @@ Proof.
     + apply result_eqb_spec. exact H3.
 Qed.
 
-Lemma clean_sound rs o : clean_okb rs o = true -> Clean rs o.
+Lemma sigs_sound pre : forall after, sigs_okb pre after = true -> Sigs_ok pre after.
 Proof.
-  unfold clean_okb, Clean. rewrite !andb_true_iff, negb_true_iff, !nat_eqb_spec, natlist_eqb_spec.
-  intros [[[[H1 H2] H3] H4] H5]. repeat split; assumption.
+  induction pre as [|p pre IH]; intros [|a after]; simpl; intro H; try discriminate; [exact I|].
+  apply andb_true_iff in H as [H1 H2]. split; [|apply IH; exact H2].
+  apply orb_true_iff in H1 as [H1|H1]; apply Nat.eqb_eq in H1; [left|right]; exact H1.
 Qed.
 
-Lemma run_sound stale rs o : run_okb stale rs o = true -> Run_spec stale rs o.
+Lemma sigs_okb_refl l : sigs_okb l l = true.
+Proof. induction l as [|a l IH]; simpl; [reflexivity|]. rewrite Nat.eqb_refl, orb_true_r. exact IH. Qed.
+
+Lemma clean_sound stop0 rs o : clean_okb stop0 rs o = true -> Clean stop0 rs o.
+Proof.
+  unfold clean_okb, Clean. rewrite !andb_true_iff, !negb_true_iff, !nat_eqb_spec.
+  intros [[[[[H1 H2] H3] H4] H5] H6]. repeat split; try assumption. apply sigs_sound. exact H6.
+Qed.
+
+Lemma run_sound stale stop0 rs o : run_okb stale stop0 rs o = true -> Run_spec stale stop0 rs o.
 Proof.
   unfold run_okb, Run_spec. rewrite andb_true_iff. intros [Hc H]. split; [apply clean_sound; exact Hc|].
   destruct stale as [|x st].
@@ -145,9 +155,9 @@ Proof.
     + apply optbool_eqb_spec; exact H5.
 Qed.
 
-Lemma runs_sound rss : forall prev os, runs_okb prev rss os = true -> Runs_spec prev rss os.
+Lemma runs_sound rss : forall prev ps os, runs_okb prev ps rss os = true -> Runs_spec prev ps rss os.
 Proof.
-  induction rss as [|rs rss IH]; intros prev [|o os]; simpl; intro H; try discriminate; [exact I|].
+  induction rss as [|rs rss IH]; intros prev ps [|o os]; simpl; intro H; try discriminate; [exact I|].
   apply andb_true_iff in H as [H1 H2]. split; [apply run_sound; exact H1 | apply IH; exact H2].
 Qed.
 
